@@ -21,3 +21,8 @@ package sign
 //@   ensures [C06 C10] loud: implies(err == nil, flag("failed") == old(flag("failed")))
 //@   ensures [C07] no-clock-no-env: flag("clockRead") == old(flag("clockRead")) && flag("envRead") == old(flag("envRead"))
 //@   modifies [C11 C12] flag("failed"), flag("signed")
+//
+//@ func PGPSignerWithKeyID$1(data []byte) (sig []byte, err error)
+//@   ensures [C06 C10] loud: implies(err == nil, flag("failed") == old(flag("failed")))
+//@   ensures [C07] no-clock-no-env: flag("clockRead") == old(flag("clockRead")) && flag("envRead") == old(flag("envRead"))
+//@   modifies [C11 C12] flag("failed"), flag("signed")
